@@ -4,6 +4,7 @@
 //!   cvh replay <file>
 
 mod alloc;
+mod conc;
 mod crash;
 mod fault;
 mod input;
@@ -14,6 +15,7 @@ mod ops;
 mod plant;
 mod real;
 mod report;
+mod sched;
 mod seq;
 mod shim;
 mod util;
@@ -107,6 +109,7 @@ fn main() {
                 "input" => input::run(&a.tier, a.slice, a.seed, &prop),
                 "waldmg" => waldmg::run(&a.tier, a.slice, a.seed),
                 "plant" => plant::run(&a.tier, a.slice, a.seed),
+                "sched" => conc::run(&a.tier, a.slice, a.seed),
                 _ => {
                     eprintln!("unknown engine {engine}");
                     std::process::exit(2);
@@ -129,6 +132,7 @@ pub fn replay(case: &Value) -> Vec<report::Violation> {
         "input" => input::replay(case),
         "waldmg" => waldmg::replay(case),
         "plant" => plant::replay(case),
+        "sched" => conc::replay(case),
         e => {
             eprintln!("cannot replay engine {e:?}");
             std::process::exit(2);
